@@ -633,7 +633,7 @@ func init() {
 							}
 							continue
 						}
-						if pp == core.ModPath+"/canonicalizer" && (f.Name() == "Parse" || f.Name() == "ParseRef") && callee.Name() == "Parse" && namedOf(recvType(f)) == "profile" && !isUrlParse(callee) {
+						if pp == core.ModPath+"/canonicalizer" && callee.Name() == "Parse" && namedOf(recvType(f)) == "profile" && !isUrlParse(callee) && hasRetry(f) {
 							// the default-scheme retry idiom: governed by OPT-retry
 							s.OK(key, pos, "default-scheme retry site: decided by OPT-retry")
 							continue
@@ -1032,6 +1032,21 @@ func aliasOrPhiOf(v ssa.Value, alias map[ssa.Value]bool) bool {
 	for _, s := range valueSources(v) {
 		if alias[s] {
 			return true
+		}
+	}
+	return false
+}
+
+
+// hasRetry: the function re-parses a concatenated text (the default-scheme retry idiom, governed by OPT-retry).
+func hasRetry(f *ssa.Function) bool {
+	for _, b := range f.Blocks {
+		for _, ins := range b.Instrs {
+			if call, ok := ins.(*ssa.Call); ok && call.Common().IsInvoke() && call.Common().Method.Name() == "Parse" {
+				if bo, ok := call.Common().Args[0].(*ssa.BinOp); ok && bo.Op == token.ADD {
+					return true
+				}
+			}
 		}
 	}
 	return false
